@@ -34,7 +34,7 @@ const (
 	// the first 8/6/4/4 objects are the original universe (committed replays name them)
 	nBlobs     = 12
 	nImages    = 9
-	nIndexes   = 9
+	nIndexes   = 8
 	nArtifacts = 8
 )
 
@@ -93,7 +93,6 @@ var indexKids = [nIndexes][]Obj{
 	{{"image", 1}, {"image", 1}}, // 5: the same child twice
 	{{"image", 7}, {"image", 0}}, // 6: a sha512-addressed child
 	{{"image", 8}, {"image", 0}}, // 7: a child whose descriptors carry inline data
-	{{"blob", 2}, {"image", 0}},  // 8: a blob-typed entry (a layer listed directly, as a buildkit cache image does)
 }
 
 // artifact 7 carries the empty config and its payload inline ("data":"e30=" as ORAS / regctl write it);
@@ -242,10 +241,6 @@ func indexManifest(x int) []byte {
 	var kids []string
 	archs := []string{"amd64", "arm64", "ppc64le"}
 	for i, k := range indexKids[x] {
-		if !isManifestObj(k) {
-			kids = append(kids, descJSON(k, "", ""))
-			continue
-		}
 		kids = append(kids, descJSON(k, "", fmt.Sprintf(`,"platform":{"architecture":%q,"os":"linux"}`, archs[i%len(archs)])))
 	}
 	if x == 4 {
@@ -356,12 +351,6 @@ func prereqOps(o Obj, seen map[string]bool) []DrvOp {
 	leaves, kids := parts(o)
 	for _, k := range kids {
 		if seen[objDigest(k)] {
-			continue
-		}
-		if !isManifestObj(k) {
-			// a blob-typed index entry is pushed as a blob
-			out = append(out, blobOp(k, false))
-			seen[objDigest(k)] = true
 			continue
 		}
 		out = append(out, prereqOps(k, seen)...)
